@@ -112,6 +112,8 @@ func generate(g *Gen, prop string, n int, w *bufio.Writer) {
 		for i := 0; i < n; i++ {
 			g.genSqrt(np())
 		}
+	case "sqrtenum":
+		g.genSqrtEnum(np, n)
 	case "setters":
 		for i := 0; i < n; i++ {
 			g.genSetters(np())
